@@ -22,6 +22,8 @@ func swarmWorld(e *Env) world.Config {
 	cfg.Sticky = []int{0, 4, 20}[c.Choose("sticky", 3)]
 	cfg.FragProb = []int{100, 0, 500}[c.Choose("frag", 3)]
 	cfg.WClock = 1
+	// one run in five schedules tasks by PCT priorities instead of uniformly
+	cfg.PCT = []int{0, 0, 0, 0, 3}[c.Choose("pct", 5)]
 	// sub-millisecond perturbation keeps timers of different connections from tying
 	cfg.Heartbeat = 30*time.Second + time.Duration(c.Choose("hbjit", 1000))*time.Microsecond
 	return cfg
